@@ -15,7 +15,7 @@ LNext ==
   \E e \in Objects :
      \/ \E c \in LConfigs : Setup(e, c)
      \/ Iterate(e)
-     \/ \E k \in 1..MaxK : IterateN(e, k)
+     \/ \E k \in 0..MaxK : IterateN(e, k)
      \/ Run(e, 1..MaxK)
      \/ SampleCall(e)
      \/ GetProgress(e)
